@@ -66,6 +66,9 @@ def configs(tier, seed):
         ("uint64", 1, (3, 1, 1), (1, 1, 2)),      # padded in z
         ("uint32", 1, (1, 1, 4), (2, 1, 1)),      # two blocks sharing tables
         ("uint64", 1, (1, 3, 3), (3, 3, 1)),      # 9 voxels -> up to width 4
+        ("uint32", 1, (2, 2, 1), (2, 2, 2)),      # chunk thinner than the block along x (several labels in the partial block)
+        ("uint64", 1, (2, 1, 2), (2, 2, 2)),      # ... along y
+        ("uint32", 1, (1, 2, 1), (2, 4, 1)),      # ... along x and y, non-cubic block
     ]
     for b in base:
         out.append(_cfg(*b, cost=3 if b[2][0] * b[2][1] * b[2][2] >= 8 else 1))
